@@ -322,6 +322,9 @@ class SR:
         s = str(self.t)
         return "SR(%s)" % (s if len(s) < 80 else s[:77] + "...")
 
+    def __format__(self, spec):
+        return "<sym>"      # only reached from log / error message formatting
+
 
 # ----------------------------------------------------------------------------- complex
 class SC:
@@ -414,6 +417,9 @@ class SC:
 
     def __repr__(self):
         return "SC(%r,%r)" % (self.re, self.im)
+
+    def __format__(self, spec):
+        return "<sym>"
 
 
 # ----------------------------------------------------------------------------- angles
